@@ -19,7 +19,7 @@ Local Arguments N.add : simpl never.
 Local Arguments N.log2 : simpl never.
 
 (* ---------- the model's operations are the operations of the array theorems ---------- *)
-Definition conv (o : cop) : aop := match o with CBits v c => AOp (WBits v c) | CArr b c => AArr b c end.
+Definition conv (o : cop) : aop := match o with CBit b => AOp (WBit b) | CBits v c => AOp (WBits v c) | CArr b c => AArr b c end.
 
 Lemma run_cops_conv : forall ops s, run_cops s ops = run_aops s (map conv ops).
 Proof.
